@@ -24,6 +24,8 @@ EXTRA = {
     "C19": [("gapic/schema/wrappers.py", "MessageType.recursive_field_types"), ("gapic/schema/wrappers.py", "MessageType.recursive_resource_fields"),
             ("gapic/schema/wrappers.py", "CommonResource.build"), ("gapic/schema/wrappers.py", "CommonResource.message_type")],
     "C01": [("gapic/schema/api.py", "API.subpackages")],
+    "C12": [("gapic/schema/wrappers.py", "Service.with_context"), ("gapic/schema/wrappers.py", "Method.with_context"),
+            ("gapic/schema/wrappers.py", "Method.flattened_fields")],
     "C02": [("gapic/schema/api.py", "API.subpackages")],
     "C11": [("gapic/schema/api.py", "API.subpackages")],
 }
